@@ -96,14 +96,24 @@ def gen_tone(rng):
         f = fch1 + (1 if asc else -1) * (k + frac) * cbw
         dur = spb * nb / sr
         drift = (1 if asc else -1) * per_row * rows * (cbw / L) / dur
+    second = (not many) and (not fast) and drift == 0.0 and rng.random() < 0.15
+    if second:
+        # the same source recorded twice (ON / OFF scans): the chirp goes on where the clock says, f_start + drift * t with t counted from the
+        # start of the FIRST recording -- 2.5 to 3.5 fine bins further per recorded block
+        L = 64; I = 1; rows = 8; spb = L * rows; nants = rng.choice([2, 2, 1])
+        per_block = rng.uniform(2.5, 3.5) * rng.choice([-1, 1])
+        frac = (0.1 if per_block > 0 else -0.1)           # the whole sweep stays on one side of the channel centre (no meeting with a DC line)
+        f = fch1 + (1 if asc else -1) * (k + frac) * cbw
+        dur = spb * nb / sr
+        drift = (1 if asc else -1) * per_block * (cbw / L) / dur
     c = dict(sample_rate=sr, fch1=fch1, ascending=asc, nb=nb, taps=taps, nchans=nchans, start_chan=start, nants=nants, num_pols=num_pols, nbits=nbits,
              block_size=nants * nchans * bps * spb, blocks_per_file=1, num_subblocks=rng.choice([1, 2]), seed=rng.randint(0, 999),
              noise=[[0.0, 0.3]], signals=[dict(f_start=f, drift=drift, level=2.0, phase=rng.uniform(0, 6))], num_blocks=1, load_template=False,
              fftlength=L, int_factor=I, tone_hz=f, drift=drift, k=k, frac=frac, directio=rng.random() < 0.4,
-             req=dict(fwhm=8 if nbits == 4 else 32), fast=fast)
+             req=dict(fwhm=8 if nbits == 4 else 32), fast=fast, second=second)
     if nants > 1:
         c["delays"] = [0] * nants
-    if fast or (drift and rng.random() < 0.6):
+    if fast or (drift and not second and rng.random() < 0.6):
         # a drifting tone in a block cut into 3 / 5 / 7 sub-blocks, which mostly leaves a shorter last one: every spectrum must still show the
         # tone where f_start + drift*t puts it (statistics frozen for a constant gain, as below)
         c["num_subblocks"] = rng.choice([3, 5, 7])
@@ -186,7 +196,7 @@ def run(ctx):
         timpl.extend(part)
     for c, r, sv in zip(tcases, timpl, svals):
         ctx.count(dict(k="tone", c=c), nontrivial=(c["start_chan"] > 0 or not c["ascending"]))
-        ctx.tally("tone_kind", ("fast chirp" if c.get("fast") else "chirp") if c["drift"] else "tone"); ctx.tally("fftlength", c["fftlength"]); ctx.tally("int_factor", c["int_factor"])
+        ctx.tally("tone_kind", ("fast chirp" if c.get("fast") else "chirp in a second recording" if c.get("second") else "chirp") if c["drift"] else "tone"); ctx.tally("fftlength", c["fftlength"]); ctx.tally("int_factor", c["int_factor"])
         ctx.tally("tone_bits_pols", "%d/%d" % (c["nbits"], c["num_pols"])); ctx.tally("subblocks", "maximal partition" if c["num_subblocks"] > 7 else c["num_subblocks"])
         fine = r["fine_hz"]
         rows = len(r["indep_peaks_hz"])
@@ -197,7 +207,7 @@ def run(ctx):
                 continue
             for row, f in enumerate(pk):
                 t_mid = (row + 0.5) * dt_row
-                want = c["tone_hz"] + c["drift"] * t_mid
+                want = c["tone_hz"] + c["drift"] * (r.get("t_offset", 0.0) + t_mid)
                 tol = fine * (1.0 if not c["drift"] else 1.5) + abs(c["drift"]) * dt_row / 2
                 if abs(f - want) > tol:
                     ctx.impl_violation("tone-location-" + path,
